@@ -391,3 +391,77 @@ def _np_unique2(L, a, return_index=False, return_inverse=False, return_counts=Fa
     if return_counts and not (return_index or return_inverse or kw) and axis is None:
         return _unique_with_counts(L, a)
     return _prev_unique(L, a, return_index=return_index, return_inverse=return_inverse, return_counts=return_counts, axis=axis, **kw)
+
+
+# ---------------------------------------------------------------- numpy.diff / numpy.histogram / numpy.random.choice
+@model('numpy.diff')
+def _np_diff(L, a, n=1, **kw):
+    a = L.as_arr(a)
+    if a.ndim != 1 or n != 1 or kw:
+        raise Unsupported('numpy.diff of this shape')
+    m = simp(to_z3(a.shape[0]) - 1)
+    if L.ctx.feasible(to_z3(m) < 0):
+        m = simp(z3.If(to_z3(m) < 0, z3.IntVal(0), to_z3(m)))
+    f = a.f
+    S = L.I.S
+    import ast as _ast
+    return Arr((m,), lambda ix: S.binop(_ast.Sub(), f((simp(to_z3(ix[0]) + 1),)), f((ix[0],))), a.dtype)
+
+
+CHOICE_IDX = z3.Function('rng_choice_index', RNG, I_, I_)     # index drawn for the e-th sample of a choice() call in this state
+
+
+@model('numpy.random.choice')
+def _np_choice(L, a, size=None, replace=True, p=None):
+    """numpy.random.choice(values, p=probs, size=m) (ASSUMED): sample e is values[CHOICE_IDX(state, e)], an index in range whose
+    probability is positive; the call advances the generator state"""
+    a = L.as_arr(a)
+    if a.ndim != 1 or size is None or replace is not True:
+        raise Unsupported('numpy.random.choice of this form')
+    st = rng_state(L)
+    n = to_z3(a.shape[0])
+    m = to_z3(size)
+    if L.ctx.branch(m < 0):
+        raise PyRaise(builtin_exc('ValueError'), 'negative dimensions are not allowed')
+    e = z3.Int('e!ch')
+    facts = [0 <= CHOICE_IDX(st, e), CHOICE_IDX(st, e) < n]
+    if p is not None:
+        pa = L.as_arr(p)
+        L._same_dim(a.shape[0], pa.shape[0])
+        facts.append(to_real(pa.f((CHOICE_IDX(st, e),))) > 0)
+    L.ctx.fact(z3.ForAll([e], z3.Implies(z3.And(0 <= e, e < m), z3.And(*facts)), patterns=[CHOICE_IDX(st, e)]))
+    rng_advance(L)
+    f = a.f
+    r = Arr((size,), lambda ix: f((CHOICE_IDX(st, to_z3(ix[0])),)), a.dtype)
+    r.ghost['rng_state'] = st
+    return r
+
+
+@model('numpy.histogram')
+def _np_histogram(L, x, bins=10, **kw):
+    """numpy.histogram(x, bins=edges) (ASSUMED, for increasing edges): counts[k] = #{e : edges[k] <= x_e < edges[k+1]}, the last bin
+    closed on the right; the counts add up to the number of values inside [edges[0], edges[-1]]"""
+    from .lib import CNT, SUM
+    x = L.as_arr(x)
+    if kw or not isinstance(bins, Arr) or bins.ndim != 1 or x.ndim != 1:
+        raise Unsupported('numpy.histogram of this form')
+    nb = to_z3(bins.shape[0])
+    m = to_z3(x.shape[0])
+    if L.ctx.branch(nb < 2):
+        raise Unsupported('histogram with fewer than two edges')
+    xf, bf = x.f, bins.f
+    e = z3.Int('i!cnt')
+
+    def inbin(k, ee):
+        v = to_real(xf((ee,)))
+        lo, hi = to_real(bf((k,))), to_real(bf((simp(to_z3(k) + 1),)))
+        return z3.And(lo <= v, z3.If(to_z3(k) == nb - 2, v <= hi, v < hi))
+    counts = Arr((simp(nb - 1),), lambda ix: CNT(z3.Lambda([e], inbin(to_z3(ix[0]), e)), m), 'int64', label='histogram')
+    from .lib import ISUM
+    k = z3.Int('i!lam')
+    total = ISUM(z3.Lambda([k], CNT(z3.Lambda([e], inbin(k, e)), m)), to_z3(counts.shape[0]))
+    inside = CNT(z3.Lambda([e], z3.And(to_real(bf((z3.IntVal(0),))) <= to_real(xf((e,))), to_real(xf((e,))) <= to_real(bf((simp(nb - 1),))))), m)
+    L.ctx.fact(total == inside, lemma=True)
+    counts.ghost['histogram'] = dict(inbin=inbin, m=m, nb=nb, total=total, inside=inside)
+    L.ctx.ghost.setdefault('histograms', []).append(counts.ghost['histogram'])
+    return (counts, bins)
